@@ -13,7 +13,17 @@ Transforms (each local to one function, each obviously semantics-preserving):
              expressions without calls (no evaluation-order change);
   negif      ``if c: A else: B`` becomes ``if not c: B else: A``;
   guardvar   the test of an ``if`` whose test is a pure boolean combination of names/attributes is
-             bound to a local flag right before it.
+             bound to a local flag right before it;
+  swapeq     the operands of ``==`` / ``!=`` / ``is`` / ``is not`` are exchanged (operands without calls);
+  negcmp     ``a != b`` is written ``not (a == b)``, ``x is not None`` as ``not (x is None)``,
+             ``a not in b`` as ``not (a in b)``;
+  kwreorder  the keyword arguments of a call are written in reverse order (all values without calls);
+  ifexp      ``if c: x = A else: x = B`` (same simple target) becomes ``x = A if c else B``;
+  elsereturn ``if c: <...return/raise>`` followed by more statements gets those statements as its
+             ``else`` branch;
+  augassign  ``x += <number>`` becomes ``x = x + <number>`` (and ``-=``) for plain names;
+  demorgan   ``not a and not b`` in an ``if`` test is written ``not (a or b)`` and ``not a or not b``
+             as ``not (a and b)``.
 
 ``variants(repo, relpaths)`` yields (name, overlay) pairs: one variant per (transform, function)
 where the transform applies.  Nothing is executed; overlays are in-memory source texts.
@@ -28,7 +38,7 @@ from typing import Iterator, Optional
 from .astutil import attr_chain
 from .model import Repo, walk_no_nested
 
-TRANSFORMS = ("rename", "hoist", "retvar", "flipcmp", "negif", "guardvar")
+TRANSFORMS = ("rename", "hoist", "retvar", "flipcmp", "negif", "guardvar", "swapeq", "negcmp", "kwreorder", "ifexp", "elsereturn", "augassign", "demorgan")
 
 
 def _params(fn) -> set[str]:
@@ -236,7 +246,131 @@ def t_guardvar(fn) -> bool:
     return done
 
 
-_T = {"rename": t_rename, "hoist": t_hoist, "retvar": t_retvar, "flipcmp": t_flipcmp, "negif": t_negif, "guardvar": t_guardvar}
+def t_swapeq(fn) -> bool:
+    done = False
+    for n in walk_no_nested(fn):
+        if isinstance(n, ast.Compare) and len(n.ops) == 1 and isinstance(n.ops[0], (ast.Eq, ast.NotEq, ast.Is, ast.IsNot)) and _simple(n.left) and _simple(n.comparators[0]):
+            n.left, n.comparators[0] = n.comparators[0], n.left
+            done = True
+    return done
+
+
+def t_negcmp(fn) -> bool:
+    inv = {ast.NotEq: ast.Eq, ast.IsNot: ast.Is, ast.NotIn: ast.In}
+    done = False
+
+    class R(ast.NodeTransformer):
+        def visit_FunctionDef(self, node):
+            return node if node is not fn else self.generic_visit(node)
+
+        visit_AsyncFunctionDef = visit_FunctionDef
+
+        def visit_Lambda(self, node):
+            return node
+
+        def visit_Compare(self, node):
+            nonlocal done
+            self.generic_visit(node)
+            if len(node.ops) == 1 and type(node.ops[0]) in inv:
+                done = True
+                return ast.copy_location(ast.UnaryOp(op=ast.Not(), operand=ast.Compare(left=node.left, ops=[inv[type(node.ops[0])]()], comparators=node.comparators)), node)
+            return node
+
+    R().visit(fn)
+    return done
+
+
+def t_kwreorder(fn) -> bool:
+    done = False
+    for n in walk_no_nested(fn):
+        if isinstance(n, ast.Call) and len(n.keywords) >= 2 and all(k.arg is not None and _simple(k.value) for k in n.keywords) and all(_simple(a) for a in n.args):
+            n.keywords = list(reversed(n.keywords))
+            done = True
+    return done
+
+
+def _blocks(fn):
+    for n in walk_no_nested(fn):
+        for fld in ("body", "orelse", "finalbody"):
+            blk = getattr(n, fld, None)
+            if isinstance(blk, list) and blk and isinstance(blk[0], ast.stmt) and not isinstance(n, (ast.FunctionDef, ast.AsyncFunctionDef, ast.ClassDef)):
+                yield blk
+        if isinstance(n, ast.Try):
+            for h in n.handlers:
+                yield h.body
+    yield fn.body
+
+
+def t_ifexp(fn) -> bool:
+    done = False
+    for blk in _blocks(fn):
+        for i, st in enumerate(blk):
+            if isinstance(st, ast.If) and len(st.body) == 1 and len(st.orelse) == 1 and all(isinstance(x, ast.Assign) and len(x.targets) == 1 and isinstance(x.targets[0], ast.Name) for x in (st.body[0], st.orelse[0])) and st.body[0].targets[0].id == st.orelse[0].targets[0].id:
+                blk[i] = ast.copy_location(ast.Assign(targets=[ast.Name(id=st.body[0].targets[0].id, ctx=ast.Store())], value=ast.IfExp(test=st.test, body=st.body[0].value, orelse=st.orelse[0].value)), st)
+                done = True
+    return done
+
+
+def _leaves(body) -> bool:
+    if not body:
+        return False
+    last = body[-1]
+    if isinstance(last, (ast.Return, ast.Raise, ast.Continue, ast.Break)):
+        return True
+    if isinstance(last, ast.If):
+        return bool(last.orelse) and _leaves(last.body) and _leaves(last.orelse)
+    return False
+
+
+def t_elsereturn(fn) -> bool:
+    for blk in _blocks(fn):
+        for i, st in enumerate(blk):
+            if isinstance(st, ast.If) and not st.orelse and _leaves(st.body) and i + 1 < len(blk) and not any(isinstance(x, (ast.FunctionDef, ast.AsyncFunctionDef, ast.ClassDef)) for x in blk[i + 1 :]):
+                st.orelse = blk[i + 1 :]
+                del blk[i + 1 :]
+                return True
+    return False
+
+
+def t_augassign(fn) -> bool:
+    done = False
+    for blk in _blocks(fn):
+        for i, st in enumerate(blk):
+            if isinstance(st, ast.AugAssign) and isinstance(st.target, ast.Name) and isinstance(st.op, (ast.Add, ast.Sub)) and isinstance(st.value, ast.Constant) and isinstance(st.value.value, (int, float)) and not isinstance(st.value.value, bool):
+                blk[i] = ast.copy_location(ast.Assign(targets=[ast.Name(id=st.target.id, ctx=ast.Store())], value=ast.BinOp(left=ast.Name(id=st.target.id, ctx=ast.Load()), op=st.op, right=st.value)), st)
+                done = True
+    return done
+
+
+def t_demorgan(fn) -> bool:
+    done = False
+
+    def neg(e):
+        return isinstance(e, ast.UnaryOp) and isinstance(e.op, ast.Not)
+
+    class R(ast.NodeTransformer):
+        def visit_FunctionDef(self, node):
+            return node if node is not fn else self.generic_visit(node)
+
+        visit_AsyncFunctionDef = visit_FunctionDef
+
+        def visit_Lambda(self, node):
+            return node
+
+        def visit_BoolOp(self, node):
+            nonlocal done
+            self.generic_visit(node)
+            if all(neg(v) for v in node.values) and len(node.values) >= 2:
+                done = True
+                other = ast.Or() if isinstance(node.op, ast.And) else ast.And()
+                return ast.copy_location(ast.UnaryOp(op=ast.Not(), operand=ast.BoolOp(op=other, values=[v.operand for v in node.values])), node)
+            return node
+
+    R().visit(fn)
+    return done
+
+
+_T = {"swapeq": t_swapeq, "negcmp": t_negcmp, "kwreorder": t_kwreorder, "ifexp": t_ifexp, "elsereturn": t_elsereturn, "augassign": t_augassign, "demorgan": t_demorgan, "rename": t_rename, "hoist": t_hoist, "retvar": t_retvar, "flipcmp": t_flipcmp, "negif": t_negif, "guardvar": t_guardvar}
 
 
 def variants(repo: Repo, relpaths: Optional[list[str]] = None, transforms=TRANSFORMS, only_funcs: Optional[set[str]] = None) -> Iterator[tuple[str, dict[str, str]]]:
